@@ -229,7 +229,9 @@ def cases():
     rnd = random.Random(1900 + common.SEED)
     out = []
     fsets = [['a', 'b'], ['density', 'temp', 'Y(H2)']]
-    for i, m in enumerate(c19_meshes()):
+    ms = c19_meshes()
+    ms = ms + [families.reorder(ms[1], 'reversed'), families.reorder(ms[3], 'reversed')]
+    for i, m in enumerate(ms):
         for k in range(2 if tier == 'quick' else 3):
             out.append({'label': '%s/k%d' % (m.name, k), 'mesh': m, 'fields': fsets[(i + k) % 2], 'layout': families.scatter_layouts(m, rnd, 2), 'geom': (i + k) % 3})
     return out
